@@ -46,3 +46,29 @@ package eventloop
 //@   trusted runs UnsafeRunInAddEvent handlers (closures) and pushes to the queue (queue contract: C14)
 //@   emits added(event)
 //@   modifies el.eventQ.head, el.eventQ.tail, el.eventQ.entries[*]
+
+// ---- deferred events (C14: "an event deferred until some other event type occurs is
+// delivered exactly once, after an event of that type has been handled, in the order in which
+// it was deferred"). DelayUntil appends the event to the waiting list of the awaited type;
+// dispatchDelayedEvents hands the whole list of that type, in order, to AddEvent (ghost trace
+// `added`) and removes it from the table, so nothing is delivered twice and the storage being
+// iterated is no longer reachable from the table.
+//@ pred wdisj(el *EventLoop) = forall t reflect.Type :: {has(el.waitingEvents, t)} has(el.waitingEvents, t) ==> disjoint(el.waitingEvents[t], el.eventQ.entries)
+
+//@ func DelayUntil property C14
+//@   opt noframe true
+//@   requires el != nil && el.waitingEvents != nil
+//@   ensures [nil-ignored] event == nil ==> (forall t reflect.Type :: {el.waitingEvents[t]} has(el.waitingEvents, t) == old(has(el.waitingEvents, t)) && len(el.waitingEvents[t]) == old(len(el.waitingEvents[t])))
+//@   modifies el.waitingEvents[*], alloc
+
+//@ func (*EventLoop).dispatchDelayedEvents property C14
+//@   requires wdisj(el)
+//@   modifies el.waitingEvents[*], trace(added), el.eventQ.head, el.eventQ.tail, el.eventQ.entries[*]
+//@   ensures [consumed] !has(el.waitingEvents, t)
+//@   ensures [others-kept] forall t2 reflect.Type :: {el.waitingEvents[t2]} t2 != t ==> has(el.waitingEvents, t2) == old(has(el.waitingEvents, t2)) && sameslice(el.waitingEvents[t2], old(el.waitingEvents[t2]))
+//@   ensures [count] tracelen(added) == old(tracelen(added)) + old(len(el.waitingEvents[t]))
+//@   ensures [delivered-in-order] forall i int :: {traceat(added, 0, i)} old(tracelen(added)) <= i && i < tracelen(added) ==> traceat(added, 0, i) == old(el.waitingEvents[t][now(i) - tracelen(added)])
+//@   loop 0 invariant [count] tracelen(added) == old(tracelen(added)) + rangeindex + 1
+//@   loop 0 invariant [delivered] forall i int :: {traceat(added, 0, i)} old(tracelen(added)) <= i && i < tracelen(added) ==> traceat(added, 0, i) == old(el.waitingEvents[t][now(i) - tracelen(added)])
+//@   loop 0 invariant [list] old(has(el.waitingEvents, t)) ==> sameslice(events, old(el.waitingEvents[t])) && (forall j int :: {events[j]} 0 <= j && j < len(events) ==> events[j] == old(el.waitingEvents[t][now(j)]))
+//@   loop 0 invariant [table] !has(el.waitingEvents, t) || !old(has(el.waitingEvents, t))
